@@ -207,7 +207,7 @@ class Spec:
             if adj is not None:
                 t = R(int(adj.get("slope", 0))) * t + R(int(adj.get("intercept", 0)))
                 if not c.fork(z3.IsInt(t)):
-                    raise SpecError("ValueError", st)          # non-integral adjusted size
+                    raise SpecError("unspecified", st)         # non-integral adjusted size: the properties make no statement
                 return c.pick(z3.ToInt(t))
             # without an adjustment the size is the integer part (documented: int(value))
             return c.pick(bv.trunc_int(t))
@@ -219,7 +219,7 @@ class Spec:
         for dl in kids(lst):
             if Ctx.cur.fork(self.match(dl, items)):
                 return int(float(dl.get("value")))
-        raise SpecError("ValueError", st)
+        raise SpecError("unspecified", st)                     # no lookup entry matches: the properties make no statement
 
     # ---------------------------------------------------------------- one parameter
     def find_encoding(self, pt):
@@ -347,10 +347,10 @@ class Spec:
             if t > 8 * nb:
                 raise SpecError("overread-inner", st)
             sv = z3.ZeroExt(W - t, z3.Extract(8 * nb - 1, 8 * nb - t, u))
-            if c.fork(z3.URem(sv, z3.BitVecVal(8, W)) != 0):       # text length must be whole bytes
-                raise SpecError("ValueError", st)
-            if c.fork(sv + t > 8 * nb):                              # text must lie inside the buffer
-                raise SpecError("ValueError", st)
+            if c.fork(z3.URem(sv, z3.BitVecVal(8, W)) != 0):       # text length not whole bytes: no statement
+                raise SpecError("unspecified", st)
+            if c.fork(sv + t > 8 * nb):                              # text beyond the buffer: no statement
+                raise SpecError("unspecified", st)
             s = c.pick(sv)
             seg = z3.Extract(8 * nb - 1 - t, 8 * nb - t - s, u) if s else None
             tb = [z3.Extract(s - 1 - 8 * i, s - 8 - 8 * i, seg) for i in range(s // 8)]
@@ -361,7 +361,7 @@ class Spec:
             for i in range(0, nb - k + 1):
                 if c.fork(z3.And([bs[i + j] == term[j] for j in range(k)])):
                     return Val("str", ("decode", codec, bs[:i]), raw), w
-            raise SpecError("ValueError", st)
+            raise SpecError("unspecified", st)                 # no termination character in the buffer: no statement
         return Val("str", ("decode", codec, bs), raw), w
 
     # ---------------------------------------------------------------- containers
